@@ -70,6 +70,9 @@ def symbolic_metric(name, M):
 
 def numeric_metric(M):
     def gfun(t, x, y, z):
+        # the modules document a scalar coordinate time
+        if np.ndim(t) > 0:
+            t = float(np.ravel(t)[0])
         if hasattr(M, 'gdown4'):
             return M.gdown4(t, x, y, z)
         gij = M.gammadown3(t, x, y, z)
